@@ -506,5 +506,17 @@ def lemma(name, props, vcs, over=(), note=None):
                     'over': tuple(over), 'note': note}
 
 
+TABLES = {}
+
+
+def table(name, props, rows, note=None, reads=()):
+    """Exhaustive obligations over a closed finite domain. rows(repo) returns
+    [(obligation-name, ok: bool, detail)], computed from the repository's
+    current source (AST or import of the real module). Complete by enumeration:
+    backend 'eval(finite, exhaustive)'."""
+    TABLES[name] = {'name': name, 'props': tuple(props), 'rows': rows,
+                    'note': note, 'reads': tuple(reads)}
+
+
 def contract(file, qual, **kw):
     return Contract(file, qual, **kw)
